@@ -145,7 +145,15 @@ func rawSet(cs []*x509.Certificate) string {
 		s = append(s, fmt.Sprintf("%x", c.Raw[len(c.Raw)-12:]))
 	}
 	sort.Strings(s)
-	return strings.Join(s, ",")
+	// as a SET: "exactly the certificates of those files" - a certificate that sits in two files may be returned
+	// once or twice
+	var u []string
+	for i, x := range s {
+		if i == 0 || x != s[i-1] {
+			u = append(u, x)
+		}
+	}
+	return strings.Join(u, ",")
 }
 
 func (l c13) Exec(env *core.Env) *core.Result {
